@@ -39,7 +39,7 @@ def self_member(ctx, res):
     for i in range(ctx.n(6, 60)):
         kind, arc, names = shapes[i % len(shapes)]
         # destinations: (label, argv for --into, cwd-relative?, does the member land on the archive?)
-        for lay in ("onto", "onto_dot", "onto_abs", "elsewhere"):
+        for lay in ("onto", "onto_dot", "onto_abs", "elsewhere", "onto_symlink", "onto_hardlink"):
             d = ctx.fresh_dir()
             os.makedirs(os.path.join(d, os.path.dirname(arc)) if os.path.dirname(arc) else d, exist_ok=True)
             files = [(n, T.content_for(rng, rng.choice([1, 200, 300, 2100]))) for n in names]
@@ -52,13 +52,24 @@ def self_member(ctx, res):
             apath = os.path.join(d, arc)
             raw = open(apath, "rb").read()
             adir = os.path.dirname(arc)
+            linked = lay in ("onto_symlink", "onto_hardlink")
+            if lay == "onto_symlink":
+                # the archive is named through a symbolic link to its directory (or, in the run directory, to the run directory)
+                os.symlink(adir if adir else ".", os.path.join(d, "alias"))
+                aliased = os.path.join("alias", os.path.basename(arc))
+            if lay == "onto_hardlink":
+                # the archive is read under another name that is a hard link to the file a member would be written to
+                aliased = os.path.join(adir, "OTHER.BIN") if adir else "OTHER.BIN"
+                os.link(apath, os.path.join(d, aliased))
             if kind == "k7":
                 # a tape member lands in the destination itself
                 into, a = {"onto": (None, arc), "onto_dot": ("./" + adir if adir else ".", arc), "onto_abs": (None, apath),
-                           "elsewhere": ("out", arc)}[lay]
+                           "elsewhere": ("out", arc), "onto_symlink": (adir if adir else ".", aliased) if linked else None,
+                           "onto_hardlink": (None, aliased) if linked else None}[lay]
             else:
                 # a disk member lands in destination/sideN: the archive sits in side0/ of the run directory
-                into, a = {"onto": (".", arc), "onto_dot": ("side0/..", "./" + arc), "onto_abs": (d, apath), "elsewhere": ("out", arc)}[lay]
+                into, a = {"onto": (".", arc), "onto_dot": ("side0/..", "./" + arc), "onto_abs": (d, apath), "elsewhere": ("out", arc),
+                           "onto_symlink": (".", aliased) if linked else None, "onto_hardlink": (".", aliased) if linked else None}[lay]
             argv = ["-x"] + (["--into", into] if into is not None else []) + [a]
             case = {"kind": kind, "archive": a, "into": into, "members": names, "layout": lay}
             st.see(case, nontrivial=True)
@@ -78,6 +89,8 @@ def self_member(ctx, res):
             else:
                 blobs = D.Blobs(ctx)
                 mo = D.parse_disk_outcome(drv([D.model_extract(blobs, kind, False, a, into, raw)])[0])
+            if linked:
+                mo = None   # symbolic and hard links are outside the model's lexical `samePath` (DESIGN S3): oracle only
             if mo is not None:
                 st.compared += 1
                 wrote = sorted(k for k in after if after[k] is not None and before.get(k) != after[k])
@@ -87,8 +100,60 @@ def self_member(ctx, res):
             res.count(f"self_member:{kind}:{lay}:{status}")
 
 
+def source_is_archive(ctx, res):
+    """a source argument that is the archive's own path (disk archivers; the tape archiver's case is in C09): the run must fail
+    without touching any file — the source keeps its bytes — wherever the argument stands, also behind four end-of-side markers"""
+    st = res.stream("source_is_archive")
+    rng = ctx.rng
+    for fl in ("fd", "sd"):
+        for mode in ("create", "add"):
+            for spelling in ("plain", "dotslash", "abs", "option_a"):
+                for position in ("first", "middle", "last", "after_four_eos"):
+                    d = ctx.fresh_dir()
+                    arc = "img." + fl
+                    apath = os.path.join(d, arc)
+                    blobs = D.Blobs(ctx)
+                    others = [("one.dat", T.content_for(rng, 300)), ("two.bas", T.content_for(rng, 2041))]
+                    for n, c in others:
+                        open(os.path.join(d, n), "wb").write(c)
+                    if mode == "add":
+                        D.dar(fl, ["-c", arc, "one.dat"], cwd=d)
+                    else:
+                        open(apath, "wb").write(b"an older file at the archive's path" * 9)
+                    pre = open(apath, "rb").read()
+                    src = {"plain": arc, "dotslash": "./" + arc, "abs": apath, "option_a": arc + ",a"}[spelling]
+                    clean = src[:-2] if spelling == "option_a" else src
+                    names = [n for n, _ in others]
+                    srcs = {"first": [src] + names, "middle": [names[0], src, names[1]], "last": names + [src],
+                            "after_four_eos": names + ["--eos"] * 4 + [src]}[position]
+                    world = [(n, c) for n, c in others] + [(clean, pre)]
+                    before = P.tree(d)
+                    # the model compares paths lexically, both relative or both absolute (DESIGN S3): the absolute spelling of the
+                    # source goes with the absolute spelling of the archive
+                    arc_arg = apath if spelling == "abs" else arc
+                    status, out = D.dar(fl, ["-c" if mode == "create" else "-r", arc_arg] + srcs, cwd=d)
+                    after = P.tree(d)
+                    case = {"flavour": fl, "mode": mode, "spelling": spelling, "position": position}
+                    st.see(case, nontrivial=True)
+                    res.count(f"source_is_archive:{mode}:{position}:{status}")
+                    changed = sorted(k for k in set(before) | set(after) if before.get(k) != after.get(k))
+                    if status == "ok0" or changed:
+                        res.violate("source_is_archive", "a source that is the archive itself was overwritten (or the run claimed success)", case,
+                                    {"status": status, "changed": changed}, {"clause": "sources_untouched", "mode": mode, "position": position})
+                    if mode == "create":
+                        req = D.model_create(blobs, fl, False, arc_arg, srcs, world)
+                    else:
+                        req = D.model_add(blobs, fl, False, arc_arg, pre, srcs, world)
+                    mo = D.parse_disk_outcome(drv([req])[0])
+                    if mo is not None:
+                        st.compared += 1
+                        if mo["status"] != status or bool(mo["writes"]) != bool(changed):
+                            res.disagree("source_is_archive", case, {"status": mo["status"], "wrote": bool(mo["writes"])}, {"status": status, "changed": changed})
+
+
 def run(ctx, res):
     self_member(ctx, res)
+    source_is_archive(ctx, res)
     res.rule = ("source lists of C01/C02 x {run twice, quiet/verbose, cwd-relative / absolute / dotted-directory paths, target absent / "
                 "present with arbitrary old bytes}; archives x {list, extract} repeated; non-trivial = at least one file; distinct by case")
     rng = ctx.rng
